@@ -770,7 +770,10 @@ func execPipe(caseText string) (obs string) {
 	var outs []string
 	for _, run := range parts[1:] {
 		f := strings.Fields(run)
-		if len(f) != 3 {
+		// optional 4th token `nw`: do not wait for the library's goroutines after this run (the next materialisation
+		// starts while goroutines of this one may still be winding down)
+		noWait := len(f) == 4 && f[3] == "nw"
+		if len(f) != 3 && !noWait {
 			return "bad-case"
 		}
 		w.calls, w.faultKind, w.faultPos = 0, "", 0
@@ -828,7 +831,7 @@ func execPipe(caseText string) (obs string) {
 			}, stream.WithConcurrentConsumeOption(c))
 		}
 		leak := 0
-		if async {
+		if async && !noWait {
 			// closes of asynchronous stages are due once the library's goroutines have quiesced
 			deadline := time.Now().Add(3 * time.Second)
 			for runtime.NumGoroutine() > baseGoroutines && time.Now().Before(deadline) {
